@@ -125,6 +125,11 @@ func (colorizeToolS) echoResetColor(out io.Writer) { //nolint:unused //no
 //
 
 func (colorizeToolS) translate(str string, initialColor ...color.Color) string {
+	if !strings.ContainsAny(str, "<&") {
+		// no inline markup: the HTML-based translator would only damage the
+		// text (it drops leading white space and NUL bytes and turns CR into LF)
+		return str
+	}
 	clr := color.FgDefault
 	for _, c := range initialColor {
 		clr = c
